@@ -77,6 +77,26 @@ add('C12', 'Gallina model of _PokTranslator._prepare / __call__ / _merge_other /
     'C12_sig and C12_call are proved in their _partial forms (full statements kept in Proofs/Modifiers.v); known finding C12:bound-self-selected listed in known_findings.json.',
     'Coq proof over a Gallina model + in-Coq evaluation correspondence + differential execution against native defs')
 
+add('C07', 'Same discovery model as C05/C06 (Model/Visitor.v, Model/Discover.v; theorems in Props/C07.v); the walker model is compared with CallListerVisitor on the tree of every '
+    'corpus function; sigtools.signature (auto on/off), signatures.signature and the Sphinx hook are run on every function, builtin, class, partial, callable instance and class '
+    'attribute of ~190 stdlib / third-party / sigtools modules (~9k objects thorough, every second one quick), on ~70 adversarial sources and on ~450 generated forwarding programs '
+    '(including ones whose written call can never succeed): no exception where inspect.signature succeeds, same exception type where it raises, UpgradedSignature results, narrowing '
+    'of plain functions decided by the extracted complete decider incl_cex.',
+    'PARTIAL: totality over real CPython objects is exploration of a fixed corpus; the proof part covers the walker/forward_signatures model and the completeness of the narrowing decider. '
+    'Known finding C07:fabricated-attributes listed in known_findings.json. ' + DISC_NOTE,
+    'Coq proof over a Gallina model of the AST walker + corpus run + extracted-model correspondence')
+add('C13', 'Gallina model of wrappers.decorator / wrapper_decorator / Combination (call terms, descriptor get, discovery chain of _SimpleWrapped, signatures through the algebra model; Model/Wrappers.v) '
+    'with 18 theorems for all stacks and calls in Props/C13.v (composition, exception propagation, Combination fold/flatten, wrappers order, rebinding, method binding, well-formed signatures); '
+    '~580 generated decorator stacks (function/method/staticmethod, depth 1-3, Combination of 1-3) really executed on ~130k calls against the hand-written composition; model evaluated inside Coq and through the driver.',
+    'PARTIAL: descriptor rebinding, as_forged through inspect.signature and staticmethod placement are CPython behaviour observed by differential execution; acceptance soundness of the forwards/merge results rests on C04/C01. '
+    'Known findings C13:self-collision, C13:self-keyword, C13:combination-inspect listed in known_findings.json.',
+    'Coq proof over a Gallina model + differential execution of generated decorator stacks')
+add('C14', 'Gallina model of CPython\'s rich-comparison dispatch, the __eq__/__hash__/replace bodies of UpgradedSignature / UpgradedParameter / UpgradedAnnotation with an explicit Raise outcome (Model/Eq.v); '
+    '20 theorems for all objects in Props/C14.v (total, reflexive, symmetric incl. plain counterparts, != is the negation, hash consistency, hashability, replace); ~36k comparisons / hashes / binds / replaces on '
+    'the implementation against plain inspect objects and against the model (evaluated inside Coq).',
+    'The model of Python\'s comparison protocol is the trusted part (validated against CPython with ad-hoc classes on every run); foreign partners are assumed not to raise in their own __eq__.',
+    'Coq proof over a Gallina model of the comparison protocol + in-Coq evaluation correspondence')
+
 
 def main():
     props = [json.loads(l)['id'] for l in open(os.path.join(VERIF, 'properties.jsonl'))]
